@@ -49,6 +49,13 @@ class Grammar:
         self.span_counter = [0]
         self.nodes = {}   # uid -> materialised value (first materialisation) for input reconstruction
 
+    # hash containers (HashSet / HashMap) have no defined iteration order: the models ask the grammar, so that a scenario can
+    # run the same code under opposite orders and compare (C16)
+    order_mode = 'identity'
+
+    def iteration_order(self, I, n, label):
+        return list(range(n)) if self.order_mode == 'identity' else list(reversed(range(n)))
+
     # ------------------------------------------------------------ policy hooks
     def variants(self, enum_name, li):
         f = self.policy.get('variants')
